@@ -246,6 +246,74 @@ def refactor_corpus(pid: str, world: World, base_v: set, base_i: set) -> tuple[i
     return n, failures
 
 
+def _compose_job(args):
+    import re
+    import shutil
+    import tempfile
+
+    pid, root, seed_patch, ref_patch, base_v = args
+    from .run import run_property
+
+    tmp = tempfile.mkdtemp(prefix='verif_compose_')
+    try:
+        shutil.copytree(os.path.join(root, 'src'), os.path.join(tmp, 'src'))
+        for patch in (ref_patch, seed_patch):
+            r = subprocess.run(['patch', '-p1', '--fuzz=2', '--no-backup-if-mismatch', '-s', '-i', patch], cwd=tmp, capture_output=True, text=True)
+            if r.returncode != 0:
+                return seed_patch, ref_patch, 'conflict'
+        for patch in (ref_patch, seed_patch):
+            with open(patch, encoding='utf-8') as f:
+                for rel in set(re.findall(r'^\+\+\+ b/(\S+)', f.read(), re.M)):
+                    try:
+                        with open(os.path.join(tmp, rel), encoding='utf-8') as g:
+                            compile(g.read(), rel, 'exec')
+                    except (SyntaxError, OSError):
+                        return seed_patch, ref_patch, 'conflict'
+        ck = run_property(pid, World(tmp))
+        new = {o.key for o in ck.violations()} - base_v
+        return seed_patch, ref_patch, 'reported' if new else 'missed'
+    finally:
+        shutil.rmtree(tmp, ignore_errors=True)
+
+
+def composed(pid: str, world: World, base_v: set) -> tuple[int, list[str]]:
+    import multiprocessing as mp
+    import re
+
+    if world.overrides:
+        return 0, []
+
+    def files_of(patch):
+        with open(patch, encoding='utf-8') as f:
+            return set(re.findall(r'^\+\+\+ b/(\S+)', f.read(), re.M))
+
+    refs = sorted(glob.glob(os.path.join(VERIF, 'refactors', '*', 'patch.diff')))
+    jobs = []
+    for meta_path in sorted(glob.glob(os.path.join(VERIF, 'seeded', '*', 'meta.json'))):
+        with open(meta_path, encoding='utf-8') as f:
+            meta = json.load(f)
+        if meta.get('property') != pid or pid not in meta.get('caught_by', []):
+            continue
+        sp = os.path.join(os.path.dirname(meta_path), 'patch.diff')
+        sf = files_of(sp)
+        for rp in refs:
+            if sf & files_of(rp):
+                jobs.append((pid, world.root, sp, rp, base_v))
+    if not jobs:
+        return 0, []
+    with mp.get_context('fork').Pool(min(12, os.cpu_count() or 4)) as pool:
+        results = pool.map(_compose_job, jobs)
+    n = 0
+    failures = []
+    for sp, rp, status in results:
+        if status == 'conflict':
+            continue
+        n += 1
+        if status == 'missed':
+            failures.append(f'seed {os.path.basename(os.path.dirname(sp))} on refactor {os.path.basename(os.path.dirname(rp))}: the defect is no longer reported')
+    return n, failures
+
+
 def self_test(pid: str, world: World) -> tuple[dict, list[str]]:
     from .run import run_property
 
@@ -288,6 +356,10 @@ def self_test(pid: str, world: World) -> tuple[dict, list[str]]:
     # equivalent spellings, class-hierarchy moves): the check must stay silent on every one of them
     nref, ref_fail = refactor_corpus(pid, world, base_v, base_i)
     failures += ref_fail
+    # (b3) a seeded defect applied on top of a behaviour-preserving refactor of the same file must still be reported:
+    # the normaliser and the canonical forms must not hide what they fold away
+    ncomp, comp_fail = composed(pid, world, base_v)
+    failures += comp_fail
     # (c) the pre-fix revision shows the recorded findings of this property
     hist = {}
     expected_file = os.path.join(VERIF, 'selftest', 'prefix_findings.json')
@@ -307,7 +379,7 @@ def self_test(pid: str, world: World) -> tuple[dict, list[str]]:
             except (AnalysisError, subprocess.CalledProcessError) as exc:
                 hist = {'revision': exp['revision'], 'skipped': str(exc)[:80]}
     return {'self_test': {'benign_variants_silent': nben - sum(1 for f in failures if f.startswith('benign')), 'benign_variants': nben, 'refactor_corpus': nref,
-                          'refactor_corpus_silent': nref - len(ref_fail), 'seeded_defects': nseed,
+                          'refactor_corpus_silent': nref - len(ref_fail), 'seed_on_refactor_pairs': ncomp, 'seed_on_refactor_reported': ncomp - len(comp_fail), 'seeded_defects': nseed,
                           'seeded_defects_reported': ncaught, 'historical': hist}}, failures
 
 
